@@ -91,17 +91,23 @@ class Multi(Block):
         m = self.build(case)
         obs = {"methods": sorted(m.mutation_methods), "desc0": self.desc(m), "shapes0": multi_canon(m.state_dict()), "steps": []}
         every, n = case.get("every", 1), len(case["steps"])
+        seen_latent = False
         for i, step in enumerate(case["steps"]):
             rec = {"error": None, "attr": None, "ret": [], "shapes": None, "rebuilt": None}
             sc = Script(step.get("r", []))
             ret = None
             try:
                 twin = m.clone() if case.get("twin") else None
-                m = m.clone()                                     # clone-and-mutate
+                rec["after_latent"] = seen_latent
+                seen_latent = seen_latent or (case.get("clone") == "once" and step["m"] in ("add_latent_node", "remove_latent_node") and step.get("bad") is None)
+                if case.get("clone", True) is True or i == 0:
+                    m = m.clone()                                 # clone-and-mutate (clone == "once": only before the first step)
                 with sc:
                     ret = self.call(m, step)
                 rec["attr"] = m.last_mutation_attr or ""
                 rec["ret"] = [int(v) for v in ret.values()] if isinstance(ret, dict) else []
+            except B.BadCallRaised as e:
+                rec["bad_raised"] = str(e)
             except Exception as e:  # noqa
                 rec["error"] = f"{type(e).__name__}: {e}"[:400]
             try:
@@ -183,6 +189,9 @@ class Multi(Block):
         part, inner = m.split(".")[1], m.split(".")[2]
         which = "mlp" if part == "vector_mlp" else "cnn"
         pref = f"feature_net.{part}."
+        if attr == "" and rec.get("after_latent") and post == pre:
+            return out + [("effective", f"{m} on the same clone after a latent-width mutation changed nothing and reports no applied method",
+                           f"multi:same-clone-nested-after-latent:{which}")]
         if not attr.startswith(pref):
             out.append(("resolved-method", f"{m} reported as {attr!r}"))
             return out
@@ -228,7 +237,7 @@ class Multi(Block):
                 return f"(MuRemoveLatent {copt(a.get('numb_new_nodes'))})"
             return f"(MuCnn {BLOCKS['cnn'].meth_term({'m': m.split('.')[2], 'args': a})})"
         if not tup:
-            steps = "[" + "; ".join(f"({core(s)}, {draws(s, 2)}, {cobs(self.arch_term(r['desc']), r)})" for s, r in zip(case["steps"], obs["steps"])) + "]"
+            steps = "[" + "; ".join(f"({core(s)}, {draws(s, 2)}, {cobs(self.arch_term(r['desc']), r)})" for s, r in B.good_pairs(case, obs)) + "]"
             d0 = {"latent": case["init"]["latent"], "cnn": case["init"]["cnn"]}
             return f"check_multi {st} {cfg} {self.arch_term(d0)} (Some {cshapes(obs['shapes0'])}) {steps}"
 
@@ -241,7 +250,7 @@ class Multi(Block):
             return f'(M2Core "{key}" {core(s)})'
         st2 = f"{{| m2_base := {st}; m2_mlp_layer_norm := true |}}"
         cfg2 = f"{{| m2_cfg := {cfg}; m2_mlp_cfg := {BLOCKS['mlp'].cfg_term(self.MLP_BOUNDS)} |}}"
-        steps = "[" + "; ".join(f"({m2(s)}, {draws(s, 2)}, {cobs(a2(r['desc']), r)})" for s, r in zip(case["steps"], obs["steps"])) + "]"
+        steps = "[" + "; ".join(f"({m2(s)}, {draws(s, 2)}, {cobs(a2(r['desc']), r)})" for s, r in B.good_pairs(case, obs)) + "]"
         return f"check_multi2 {st2} {cfg2} {a2(obs['desc0'])} (Some {cshapes(obs['shapes0'])}) {steps}"
 
 
@@ -407,6 +416,13 @@ def gen_multi(tier, rng):
                       "cfg": {"min_latent_dim": 8, "max_latent_dim": 128, "cnn_config": {"min_channel_size": 8, "max_channel_size": 48, "init_layers": False}},
                       "init": {"latent": 16, "cnn": {"layers": 1, "widths": [8], "kernels": [3], "strides": [1]}},
                       "steps": steps, "every": 2, "src": "walk-oracle-only"})
+    # one clone, then a latent mutation followed by nested mutations on that same clone
+    for first in ("add_latent_node", "remove_latent_node"):
+        steps = [{"m": "add_latent_node", "args": {}, "r": [0, 0], "bad": {"numb_new_nodes": "8"}},
+                 S(first, (0, 0)), S(k + "add_channel", (0, 0)), S(k + "add_layer", (0, 0)), S(k + "change_kernel", (0, 0)), S("add_latent_node", (0, 1)), S(k + "remove_layer", (0, 0))]
+        cases.append({"block": "multi", "space": "dict", "clone": "once", "static": {"num_outputs": 3}, "cfg": dict(cfg),
+                      "init": {"latent": 24, "cnn": {"layers": 1, "widths": [8], "kernels": [3], "strides": [1]}},
+                      "steps": steps, "every": 1, "src": "same-clone"})
     for n in ("q", "value", "det"):
         for sp in ("dict", "tuple"):
             if quick and (n, sp) not in (("q", "dict"), ("value", "tuple"), ("det", "dict")):
@@ -436,15 +452,23 @@ class CNN3d(B.CNN):
         steps = "[" + "; ".join(
             f"({self.meth_term(s)}, {draws(s, 2)}, "
             f"{cobs('(' + czl(r['desc']['widths']) + ', ' + czl(r['desc']['kernels']) + ', ' + czl(r['desc']['strides']) + ')', r)})"
-            for s, r in zip(case["steps"], obs["steps"])) + "]"
+            for s, r in B.good_pairs(case, obs)) + "]"
         return (f"check_cnn3d {self.static_term(case['static'])} {self.DEPTH} {self.cfg_term(case['cfg'])} {self.arch_term(case['init'])} "
                 f"(Some {cshapes(obs['shapes0'])}) {steps}")
 
 
 def gen_cnn3d(tier, rng):
     cases = []
+    cfg0 = {"min_hidden_layers": 1, "max_hidden_layers": 4, "min_channel_size": 8, "max_channel_size": 48}
+    for shp in ([2, 24, 24], [2, 20, 32], [2, 32, 20]):
+        static = {"input_shape": shp, "num_outputs": 4, "layer_norm": False, "init_layers": False}
+        steps = [S("change_kernel", (0, 0), kernel_size=[2, 1, 1], hidden_layer=0), S("change_kernel", (0, 0), kernel_size=[1, 3, 3], hidden_layer=1),
+                 S("change_kernel", (0, 0), kernel_size=[2, 2, 2], hidden_layer=0), S("add_layer", (1, 0)), S("change_kernel", (0, 0), kernel_size=[1, 2, 2], hidden_layer=2),
+                 S("change_kernel", (0, 0), kernel_size=[3, 1, 1], hidden_layer=1), S("change_kernel", (1, 1)), S("change_kernel", (0, 0), kernel_size=3, hidden_layer=0)]
+        cases.append({"block": "cnn3d", "static": static, "cfg": cfg0, "init": {"channels": [8, 8], "kernels": [3, 3], "strides": [1, 1]},
+                      "steps": steps, "every": 1, "src": "walk", "twin": True})
     for w in range(2 if tier == "quick" else 10):
-        static = {"input_shape": [2, 24, 24], "num_outputs": 4, "layer_norm": rng.random() < 0.5, "init_layers": False}
+        static = {"input_shape": [[2, 24, 24], [2, 18, 30], [2, 30, 18]][w % 3], "num_outputs": 4, "layer_norm": rng.random() < 0.5, "init_layers": False}
         cfg = {"min_hidden_layers": 1, "max_hidden_layers": 4, "min_channel_size": 8, "max_channel_size": 48}
         steps = [S(rng.choice(["add_layer", "remove_layer", "change_kernel", "change_kernel", "add_channel", "remove_channel"]),
                    (rng.randrange(100), rng.randrange(100))) for _ in range(12 if tier == "quick" else 60)]
